@@ -745,10 +745,6 @@ func c04r4(p *Prog, r *Reporter) {
 			continue
 		}
 		ret, defs, ok := inlineBody(fd)
-		if !ok {
-			r.Und(name, "truth table", p.Pos(fd.Pos()), "the body is not a single boolean return expression")
-			continue
-		}
 		// canonical parameter/receiver names: rename receiver → f (or b for Mask), mask parameter → bits
 		ren := map[string]string{}
 		if rn := recvName(fd); rn != "" {
@@ -768,7 +764,15 @@ func c04r4(p *Prog, r *Reporter) {
 			}
 			return renameAtom(a, ren), true
 		}
-		be, err := p.parseBool(ret, defs, atomOf)
+		var be *boolExpr
+		var err error
+		if ok {
+			be, err = p.parseBool(ret, defs, atomOf)
+		} else {
+			// several statements: an if-chain of returns (early returns, else branches, local definitions)
+			bc := &boolConv{p: p, pkg: t.pkg, atomOf: atomOf}
+			be, err = bc.stmts(fd.Body.List, map[string]ast.Expr{}, nil)
+		}
 		if err != nil {
 			r.Und(name, "truth table", p.Pos(fd.Pos()), err.Error())
 			continue
@@ -819,7 +823,7 @@ func c04r4(p *Prog, r *Reporter) {
 		okc, why := false, "no Set(ids[i], true) call on the returned mask"
 		for _, site := range callsIn(fn) {
 			sc := site.Common().StaticCallee()
-			if sc == nil || sc.Name() != "Set" || typeName(recvType(sc)) != "Mask" || len(site.Common().Args) != 3 {
+			if sc == nil || cname(sc) != "Set" || typeName(recvType(sc)) != "Mask" || len(site.Common().Args) != 3 {
 				continue
 			}
 			a := site.Common().Args
@@ -942,12 +946,12 @@ func c04ctor(p *Prog, r *Reporter, method string, check func(inc, exc string) st
 				args = append(args, desc(a, depth+1))
 			}
 			if sc.Signature.Recv() != nil && len(args) > 0 {
-				return args[0] + "." + sc.Name() + "(" + strings.Join(args[1:], ",") + ")"
+				return args[0] + "." + cname(sc) + "(" + strings.Join(args[1:], ",") + ")"
 			}
 			if sc.Signature.Variadic() && len(args) > 0 {
 				args[len(args)-1] += "..."
 			}
-			return sc.Name() + "(" + strings.Join(args, ",") + ")"
+			return cname(sc) + "(" + strings.Join(args, ",") + ")"
 		}
 		return "?" + apath(v)
 	}
